@@ -65,6 +65,31 @@ PROPS = {
             'MBTiles MIN/MAX SQL estimate-then-refine', 'tar/directory file-name parsing that feeds include_coord',
         ],
     ),
+    'C01': dict(
+        verus=['pmtiles_dir', 'varint_pbf', 'tile_bbox'],
+        kani=['pmtiles_codec', 'versatiles_codec', 'tile_bbox'],
+        not_decided=[
+            'end-to-end write-then-read through async I/O (writer bodies, de-duplication closure, PMTiles write loop)',
+            'MBTiles (SQL), tar and directory (file names), getters.rs dispatch',
+            'BlockIndex (HashMap of blocks) and TileIndex record loops; PMTiles leaf split (as_directory)',
+        ],
+    ),
+    'C16': dict(
+        verus=['pmtiles_dir', 'varint_pbf'],
+        kani=['pmtiles_codec', 'versatiles_codec'],
+        not_decided=[
+            'MBTiles zoom gaps (SQL), ./-prefixed tar members (string code)',
+            'reader descent through root + leaf directories (async, cache)', 'sparse block index lookup in the async reader body',
+        ],
+    ),
+    'C19': dict(
+        verus=['varint_pbf', 'pmtiles_dir', 'filters', 'converter'],
+        kani=['pmtiles_codec', 'versatiles_codec'],
+        not_decided=[
+            'JSON / TileJSON / CSV / VPL text parsers (String, nom, core::fmt: outside both verifiers; Kani probes timed out)',
+            'vector tile layer/feature decoding above the PBF primitives', 'MBTiles / tar / directory opening', 'stack depth of the recursive JSON parser',
+        ],
+    ),
     'C20': dict(
         level='other',
         verus=[],
